@@ -1,6 +1,5 @@
 from abc import ABCMeta
 import logging
-import re
 import importlib
 from antlr4 import *
 from antlr4.InputStream import InputStream
@@ -122,12 +121,14 @@ class AbstractAst:
         #TODO How to handle sub-formulas?
         entire_spec = self.modular_spec + self.spec
         
-        # the final ';' may be omitted: it is looked for, and added, in front of
-        # the white space and comments the lexer skips at the end of the text
-        end = re.search(r'(?:\s|//[^\r\n]*|/\*.*?\*/)*\Z', entire_spec, re.DOTALL).start()
-        if not entire_spec[:end].endswith(';'):
-            entire_spec = entire_spec[:end] + ';' + entire_spec[end:]
-        
+        # the final ';' may be omitted.  Whether the text already ends with one is a question
+        # about its last token (white space and comments are skipped, and a '//' inside an
+        # identifier is no comment), so the lexer answers it
+        last = self.last_token(entire_spec)
+        if last is None or last.text != ';':
+            pos = len(entire_spec) if last is None else last.stop + 1
+            entire_spec = entire_spec[:pos] + ';' + entire_spec[pos:]
+
         input_stream = InputStream(entire_spec)
         lexer = self.antrlLexerType(input_stream)
         if not isinstance(lexer, Lexer):
@@ -144,6 +145,19 @@ class AbstractAst:
         ctx = parser.specification_file()
         self.visit(ctx.specification())
         return
+
+    def last_token(self, text):
+        lexer = self.antrlLexerType(InputStream(text))
+        if not isinstance(lexer, Lexer):
+            raise RTAMTException('{} is not ANTRL4 Lexer'.format(lexer.__class__.__name__))
+        if self.parserErrorListenerType != None:
+            lexer._listeners = [self.parserErrorListenerType()]
+        last = None
+        token = lexer.nextToken()
+        while token.type != Token.EOF:
+            last = token
+            token = lexer.nextToken()
+        return last
 
     @property
     def out_var(self):
